@@ -21,8 +21,9 @@ import time
 ROOT = os.path.dirname(os.path.abspath(__file__))
 HARNESS = os.path.join(ROOT, "harness")
 CACHE = os.path.join(ROOT, ".cache")
-EVIDENCE = os.path.join(ROOT, "evidence")
-REPLAYS = os.path.join(ROOT, "replays")
+# the two overrides exist for sensitivity experiments against scratch copies (seedeval.py); registered commands never set them
+EVIDENCE = os.environ.get("VERIF_EVIDENCE_DIR") or os.path.join(ROOT, "evidence")
+REPLAYS = os.environ.get("VERIF_REPLAYS_DIR") or os.path.join(ROOT, "replays")
 KF_FILE = os.path.join(ROOT, "known_findings.txt")
 
 sys.path.insert(0, ROOT)
